@@ -10,10 +10,16 @@ Monitors (contracts attached in place to the real callables, so nested calls mad
   M2  engine.history-independence  every call on an executor (incl. the *_backprop methods) is repeated on a brand-new
                               executor instance in the current precision: equal dtype, |shared - fresh| <= 10 eps scale
 
+      repeat.same-objects / alias.container-independence (workload laws): a routine called again with the same
+                              argument objects returns what it returned first; the same numbers in another container /
+                              the same array in another memory layout give the same result
+
 Workloads: shape-class grid (all parity combinations, square / non-square / 1xN), Q kinds, shift kinds, real /
-complex input, both directions, both engines, both precisions; FFT route for every shape <= 9x9 and integer and
-non-integer Q; fixed-sampling wrappers and Wavefront methods; generated histories over the shared executors
-(transforms, backprops, clear(), precision switches, argument-spelling aliases).
+complex input, both directions, both engines, both precisions and mixed dtypes; FFT route for every shape <= 9x9 and
+integer and non-integer Q; fixed-sampling wrappers and Wavefront methods (both precisions); generated histories over the
+shared executors (transforms, backprops, clear(), precision switches, argument-spelling aliases, same-size argument
+families) and through the fixed-sampling wrappers / to_fpm_and_back at fixed array sizes; repeat / aliasing cases;
+integer and boolean images; extreme aspect ratios.
 """
 import itertools
 import math
@@ -26,23 +32,37 @@ from ..refmodels.dft import ref_dft, pair
 
 RULE = ('cases are (input shape, output shape, Q kind, shift kind, dtype, direction, engine, precision) drawn by class: '
         'every parity combination in->out per axis, square / non-square / 1xN input, Q in {1, real scalar, per-axis pair}, '
-        'shift in {none, integer, fractional}; arrays are seeded gaussian (real or complex).  Histories are sequences over '
+        'shift in {none, integer, fractional}; arrays are seeded gaussian (real or complex), plus integer / boolean images and '
+        'arrays of extreme aspect ratio.  Histories are sequences over '
         '{dft2, idft2, dft2_backprop, idft2_backprop, czt2, iczt2, clear(), precision=32|64, alias spellings of Q/shift/'
-        'samples} on the shared executors.  A case is non-trivial when the input has >= 2 non-zero samples (histories: >= 1 '
-        'transform op); distinct = distinct descriptor')
+        'samples} on the shared executors, including families of argument sets that share the array sizes and differ in Q / shift, '
+        'and sequences of focus_/unfocus_fixed_sampling / to_fpm_and_back calls (function and Wavefront form, both methods, '
+        'shifted and unshifted, changing wavelength / focal length / spacings, precision switches) at fixed array sizes.  '
+        'Repeat cases call one routine several times with the *same argument objects* (data in six memory layouts; Q / samples '
+        '/ shift as tuple, list, float64 / float32 / int ndarray, numpy scalars where the API accepts them), through its function '
+        'and method form and with the other engine in between, and once more with plain python arguments.  A case is '
+        'non-trivial when the input has >= 2 non-zero samples (histories: >= 1 transform op); distinct = distinct descriptor')
 ASSUMPTIONS = [
     'reference = textbook DFT sum with origin at index n//2 on every axis, Q[0]->axis 0, shift[0]->axis 1, coordinate - shift, '
     'normalisation 1/sqrt(Na Q0 Ma Q1) (vp/refmodels/dft.py, long-double phases, no prysm code)',
+    'the reference is evaluated on the argument values *before* the call (snapshots taken by the pre-hook), so a routine that '
+    'rewrites a caller-owned array cannot drag the reference along',
     'with a shift only the modulus is compared (the statement allows a pure phase)',
     'error scale is ||a||_1 / sqrt(Na Q0 Ma Q1), the bound on every output sample; rtol = max(1e-9 (float64) / 1e-3 (float32), 1000 eps phi) with phi '
     'the largest kernel / chirp phase of the call (observed round-off <= 0.5 eps phi); calls whose tolerance would exceed 3e-2 are excluded and counted',
-    'samples_out / shift passed as list (unhashable cache key) and numpy-integer Q are treated as out of domain',
+    'a shift handed over in a float32 container is float32 arithmetic by numpy\'s promotion rules: such calls are judged at the float32 tolerance',
+    'mdft: samples_out / shift passed as list or ndarray (unhashable cache key, TypeError) are out of domain, czt accepts them; '
+    'the fixed-sampling wrappers accept a non-zero shift in any container and sample counts as int, tuple or numpy integers',
+    'integer and boolean arrays are real input (the model converts them to float64)',
+    'repeat law: the routines are deterministic, so a later call with the same argument objects must reproduce the first to 10 eps; '
+    'container / layout independence is required to 1e-12 (float32 containers: 1e-4, float32 data or configuration: 1e-3)',
     'which Q a non-square pupil should get in *_fixed_sampling is C03/C05 business: the physical-Q monitor is applied to '
     'square pupil + square output only; for the rest the nested engine call is checked against the Q prysm passed',
     'single-threaded BLAS/FFT (the orchestrator pins thread counts) so a fresh executor reproduces a call bit-for-bit',
 ]
 REQUIRED = ['engine.textbook-dft/mdft', 'engine.textbook-dft/czt', 'fft-route.textbook-dft', 'fixed-sampling.physical-Q',
-            'engine.history-independence/mdft', 'engine.history-independence/czt', 'history.ops']
+            'engine.history-independence/mdft', 'engine.history-independence/czt', 'history.ops', 'history.wrapper-ops',
+            'repeat.same-objects', 'alias.container-independence']
 
 CTX = None
 CUR = {'desc': None}           # descriptor of the case being driven (set by the workloads)
@@ -52,6 +72,18 @@ KEY_START = 'C01/czt/even-in->odd-out/start-offset'
 KEY_AMBIG = 'C01/czt/chirp-swap-or-start-offset/indistinguishable-in-modulus'
 KEY_STALE = 'C01/mdft/history/basis-of-other-precision-reused'
 KEY_QSPELL = 'C01/history/float32/cache-entry-shared-between-python-and-numpy-scalar-Q'
+KEY_SHIFTSPELL = 'C01/history/cache-entry-shared-between-numpy-scalar-and-python-number-shift-or-samples'
+WHAT_SHIFTSPELL = ('the executors take a shift / output sample count given as numpy scalars (numpy.float32 / float64 / int64 scalars, elements of '
+                   'an array) into the coordinate / chirp arithmetic as they are -- which changes the precision that arithmetic is done in (NumPy 2 '
+                   'promotion: python numbers are weak, numpy scalars are not) -- and key their caches on them; the equal python numbers hash to the '
+                   'same entry, so the same call returns one array or another depending on which spelling ran first: '
+                   'czt2(a, Q, n, (0.0, 0.30000001192092896)) is exact on a fresh executor and 4e-7 off after czt2(a, Q, n, (np.float32(0), '
+                   'np.float32(0.3))); for complex64 data / the float32 configuration numpy.float64 shifts or numpy.int64 sample counts vs python '
+                   'numbers differ at the 1e-6 level the same way (czt2, iczt2, mdft.dft2)')
+KEY_INTDTYPE = 'C01/czt/integer-or-bool-input/chirps-built-in-the-input-dtype'
+WHAT_INTDTYPE = ('czt2/iczt2 build their chirp vectors in the dtype of the *input array*: for an integer or boolean pupil / focal array '
+                 '(a 0/1 aperture mask) the Bluestein kernel pi*j^2 is truncated to integers -- wrong modulus (3e-2 of the peak) with no '
+                 'warning -- or the call raises (bool: arange; unsigned: negative index; fractional shift: cannot cast); mdft is exact on the same input')
 
 
 class HarnessError(BaseException):
@@ -233,6 +265,68 @@ def describe(fn, ary, Qp, out, sh, extra=None):
     return d
 
 
+# ------------------------------------------------------------------------------------------ argument containers and memory layouts
+# (shared with C02, C03, C05: the same numbers handed over in the container types the API accepts, and the same
+#  array values in different memory layouts -- neither is part of the answer)
+SHIFT_CONTAINERS = ('tuple', 'list', 'nd-f64', 'nd-f32', 'nd-int', 'np-scalars')
+LAYOUTS = ('C', 'F', 'T-view', 'strided', 'neg-stride', 'offset-view')
+
+
+def make_container(kind, values):
+    """`values` (a pair of numbers) in the container `kind`.  The numbers a routine receives are those read back from the
+    container (`container_values`): float32 containers round, 'nd-int' needs integer values."""
+    v = [float(x) for x in values]
+    if kind == 'tuple':
+        return (v[0], v[1])
+    if kind == 'list':
+        return [v[0], v[1]]
+    if kind == 'nd-f64':
+        return np.array(v, dtype=np.float64)
+    if kind == 'nd-f32':
+        return np.array(v, dtype=np.float32)
+    if kind == 'nd-int':
+        return np.array([int(round(x)) for x in v], dtype=np.int64)
+    if kind == 'np-scalars':
+        return (np.float64(v[0]), np.float64(v[1]))
+    raise ValueError(kind)
+
+
+def container_values(c):
+    return tuple(float(x) for x in c)
+
+
+def low_precision(c):
+    """True when the container holds floats narrower than float64 (numpy then computes with them in that precision)."""
+    if isinstance(c, np.ndarray):
+        return c.dtype.kind == 'f' and c.dtype.itemsize < 8
+    try:
+        return any(isinstance(x, np.floating) and x.dtype.itemsize < 8 for x in c)
+    except TypeError:
+        return isinstance(c, np.floating) and c.dtype.itemsize < 8
+
+
+def relayout(a, kind):
+    """An array equal to `a` element for element, in another memory layout (a fresh buffer every time)."""
+    a = np.asarray(a)
+    if kind == 'C':
+        return np.array(a, order='C', copy=True)
+    if kind == 'F':
+        return np.asfortranarray(a.copy())
+    if kind == 'T-view':                       # transposed view of a C-ordered buffer that holds a^T
+        return np.ascontiguousarray(a.T).T
+    if kind == 'strided':                      # every second sample of a larger buffer, along both axes
+        big = np.full((2 * a.shape[0], 2 * a.shape[1]), 7, dtype=a.dtype)
+        big[::2, ::2] = a
+        return big[::2, ::2]
+    if kind == 'neg-stride':                   # reversed view of a reversed copy
+        return np.ascontiguousarray(a[::-1, ::-1])[::-1, ::-1]
+    if kind == 'offset-view':                  # interior window of a larger buffer (non-contiguous rows, non-zero offset)
+        big = np.full((a.shape[0] + 3, a.shape[1] + 2), 7, dtype=a.dtype)
+        big[1:1 + a.shape[0], 2:2 + a.shape[1]] = a
+        return big[1:1 + a.shape[0], 2:2 + a.shape[1]]
+    raise ValueError(kind)
+
+
 # ------------------------------------------------------------------------------------------ M1 + M2 on the engines
 def _parse(args, kwargs, names):
     a = dict(zip(names, args))
@@ -240,11 +334,40 @@ def _parse(args, kwargs, names):
     return a
 
 
-def _snap(names):
+def _copyarg(x):
+    """Private copy of a caller-owned mutable argument (ndarray / list); immutables are returned as they are."""
+    if isinstance(x, np.ndarray):
+        return np.array(x, copy=True)
+    if isinstance(x, list):
+        return [_copyarg(v) for v in x]
+    return x
+
+
+def _same_value(x, snap):
+    try:
+        if isinstance(snap, np.ndarray):
+            return isinstance(x, np.ndarray) and x.shape == snap.shape and bool(np.array_equal(x, snap, equal_nan=True))
+        if isinstance(snap, list):
+            return isinstance(x, list) and len(x) == len(snap) and all(_same_value(a, b) for a, b in zip(x, snap))
+    except Exception:
+        return False
+    return True
+
+
+def _note_mutation(fn, now, snap):
+    """Evidence only (an event counter): an argument object whose value after the call differs from its value before.
+    Whether that breaks the property is decided by the repeat laws of the workloads, which judge the *later* call."""
+    for k, v in snap.items():
+        if isinstance(v, (np.ndarray, list)) and k in now and not _same_value(now[k], v):
+            CTX.event(f'argument-mutated-in-place:{fn}:{k}')
+
+
+def _snap(names, skip_self=True):
+    """pre-hook: the values of all arguments *before* the call (the model is evaluated on these, so a routine that
+    rewrites a caller's array cannot drag the reference along)."""
     def pre(args, kwargs):
-        a = _parse(args[1:], kwargs, names)
-        x = a.get(names[0])
-        return np.array(x, copy=True) if isinstance(x, np.ndarray) else x
+        a = _parse(args[1:] if skip_self else args, kwargs, names)
+        return {k: _copyarg(v) for k, v in a.items()}
     return pre
 
 
@@ -266,9 +389,12 @@ def _respell_Q(args, kwargs, how):
 
 
 def _fresh_call(cls, fn, args, kwargs, bits=None):
-    """Same call on a brand-new executor (monitors are bypassed: we are inside a monitor)."""
+    """Same call on a brand-new executor (monitors are bypassed: we are inside a monitor).  The arguments are private
+    copies, so a routine that writes into them cannot disturb the snapshot."""
     from ..util import precision
     inst = cls()
+    args = tuple(_copyarg(v) for v in args)
+    kwargs = {k: _copyarg(v) for k, v in kwargs.items()}
     if bits is None:
         return getattr(inst, fn)(*args[1:], **kwargs)
     with precision(bits):
@@ -299,7 +425,8 @@ def history_monitor(engine, cls, fn, args, kwargs, result, ary):
         fresh = _fresh_call(cls, fn, args, kwargs)
     except Exception as e:  # the shared executor returned, a fresh one refuses the same call: history dependence
         d = dict(CUR['desc']) if CUR['desc'] else {}
-        d.update({'fn': fn, 'in': list(np.shape(ary)), 'precision': conf_bits(), 'args': repr(args[2:])[:160]})
+        d.update({'fn': fn, 'in': list(np.shape(ary)), 'precision': conf_bits(),
+                  'args': repr({k: v for k, v in kwargs.items() if not (isinstance(v, np.ndarray) and v.ndim > 1)})[:200]})
         CTX.violation(f'C01/history/{engine}.{fn}/fresh-executor-raises:{type(e).__name__}',
                       f'{engine}.{fn} returns on the shared executor but raises {type(e).__name__} on a fresh executor', d, exception=repr(e)[:200])
         return False
@@ -309,7 +436,7 @@ def history_monitor(engine, cls, fn, args, kwargs, result, ary):
     other_bits = 32 if bits == 64 else 64
     desc = dict(CUR['desc']) if CUR['desc'] else {}
     desc.update({'fn': fn, 'in': list(np.shape(ary)), 'dtype': str(getattr(ary, 'dtype', None)), 'precision': bits,
-                 'args': repr(args[2:])[:160], 'kwargs': repr({k: v for k, v in kwargs.items() if not isinstance(v, np.ndarray)})[:160]})
+                 'args': repr({k: v for k, v in kwargs.items() if not (isinstance(v, np.ndarray) and v.ndim > 1)})[:200]})
     r, f = np.asarray(result), np.asarray(fresh)
     detail = {'shared_dtype': str(r.dtype), 'fresh_dtype': str(f.dtype)}
     if r.shape == f.shape and f.size:
@@ -323,6 +450,32 @@ def history_monitor(engine, cls, fn, args, kwargs, result, ary):
         except Exception:
             continue
         variants.append((how, a2, k2))
+    # other spellings of the same shift / sample counts: numpy.float64 scalars, numpy.float32 scalars (when the numbers are
+    # float32-representable), python floats; numpy.int64 / python ints
+    shift_variants = []
+    try:
+        shv = tuple(pair(kwargs.get('shift', (0, 0))))
+        sh_sp = [kwargs.get('shift', (0, 0)), tuple(np.float64(float(x)) for x in shv), tuple(float(x) for x in shv)]
+        if all(float(np.float32(float(x))) == float(x) for x in shv):
+            sh_sp.append(tuple(np.float32(float(x)) for x in shv))
+        sname = 'samples_in' if 'samples_in' in kwargs else 'samples_out'
+        smv = tuple(int(x) for x in pair(kwargs[sname]))
+        sm_sp = [kwargs[sname], tuple(np.int64(x) for x in smv), smv]
+        for i, a_ in enumerate(sh_sp):
+            for j, b_ in enumerate(sm_sp):
+                if i or j:
+                    k2 = dict(kwargs, shift=a_)
+                    k2[sname] = b_
+                    shift_variants.append(k2)
+    except Exception:
+        shift_variants = []
+    for k2 in shift_variants:
+        try:
+            if _same(result, _fresh_call(cls, fn, args, k2), eps_mult=0):
+                CTX.violation(KEY_SHIFTSPELL, WHAT_SHIFTSPELL, desc, explained_by=['shift-or-samples-spelling'], **detail)
+                return True
+        except Exception:
+            continue
     for want in (('precision',), ('Q-spelling',), ('precision', 'Q-spelling')):
         hit = False
         if want == ('precision',):
@@ -366,21 +519,24 @@ def engine_post(engine, fn, fwd):
     @_safe
     def post(token, args, kwargs, result):
         cls = type(args[0])
-        a = _parse(args[1:], kwargs, names)
-        ary = token if isinstance(token, np.ndarray) else np.asarray(a['ary'])
-        stale = history_monitor(engine, cls, fn, args, kwargs, result, ary)
-        if ary.ndim != 2 or ary.dtype.kind not in 'fc':
+        snap = token                                  # values of all arguments before the call
+        _note_mutation(fn, _parse(args[1:], kwargs, names), snap)
+        ary = snap['ary'] if isinstance(snap.get('ary'), np.ndarray) else np.asarray(snap.get('ary'))
+        stale = history_monitor(engine, cls, fn, (args[0],), snap, result, ary)
+        if ary.ndim != 2 or ary.dtype.kind not in 'fciub':
             return
-        na = norm_args(a['Q'], a['samples_out'], a.get('shift', (0, 0)))
+        na = norm_args(snap['Q'], snap['samples_out'], snap.get('shift', (0, 0)))
         if na is None:
             return
         Qp, out, sh = na
-        scale = err_scale(ary, Qp)
-        if scale == 0 or not np.isfinite(ary).all():
+        intlike = ary.dtype.kind in 'iub'
+        model_in = ary.astype(np.float64) if intlike else ary
+        scale = err_scale(model_in, Qp)
+        if scale == 0 or not np.isfinite(model_in).all():
             CTX.skip('engine: all-zero or non-finite input (trivial)')
             return
         CTX.observe(f'engine.textbook-dft/{engine}')
-        single = is_single(ary.dtype) or (engine == 'mdft' and conf_bits() == 32)
+        single = is_single(ary.dtype) or (engine == 'mdft' and conf_bits() == 32) or low_precision(snap.get('shift', (0, 0)))
         rtol = rtol_for(engine, single, ary.shape, Qp, out, sh)
         if rtol is None:
             CTX.observe(f'engine.textbook-dft/{engine}', -1)
@@ -392,7 +548,7 @@ def engine_post(engine, fn, fwd):
         if result.shape != tuple(out):
             CTX.violation(f'C01/{fn}/shape', f'{fn} returned shape {result.shape}, expected {tuple(out)}', desc)
             return
-        ref = ref_dft(ary, Qp, out, sh, fwd)
+        ref = ref_dft(model_in, Qp, out, sh, fwd)
         modonly = shift_class(sh) != 'none'
         kind = mismatch(result, ref, tol, modonly, label=f'{engine}/{"f32" if single else "f64"}')
         if kind is None:
@@ -401,6 +557,9 @@ def engine_post(engine, fn, fwd):
         detail = {'err': err, 'tol': tol, 'scale': scale, 'compared': kind}
         if stale and mismatch(result, ref, (rtol_for(engine, True, ary.shape, Qp, out, sh) or 3e-2) * scale, modonly) is None:
             return      # already reported by M2 under KEY_STALE: float32-accurate result in a float64 configuration
+        if engine == 'czt' and intlike:
+            CTX.violation(KEY_INTDTYPE, WHAT_INTDTYPE, desc, **detail)
+            return
         if engine == 'czt':
             causes = diagnose_czt(ary, Qp, out, sh, fwd, result, tol)
             if causes:
@@ -414,10 +573,14 @@ def engine_post(engine, fn, fwd):
 
 
 def backprop_post(fn):
+    names = ['fbar', 'Q', 'samples_in' if fn == 'dft2_backprop' else 'samples_out', 'shift']
+
     @_safe
     def post(token, args, kwargs, result):
-        a = _parse(args[1:], kwargs, ['fbar'])
-        history_monitor('mdft', type(args[0]), fn, args, kwargs, result, token if isinstance(token, np.ndarray) else np.asarray(a['fbar']))
+        snap = token
+        _note_mutation(fn, _parse(args[1:], kwargs, names), snap)
+        fbar = snap['fbar'] if isinstance(snap.get('fbar'), np.ndarray) else np.asarray(snap.get('fbar'))
+        history_monitor('mdft', type(args[0]), fn, (args[0],), snap, result, fbar)
     return post
 
 
@@ -425,11 +588,14 @@ def backprop_post(fn):
 def fft_post(fn, fwd):
     @_safe
     def post(token, args, kwargs, result):
-        a = _parse(args, kwargs, ['wavefunction', 'Q'])
-        ary = token
+        a = dict(token)
+        _note_mutation(fn, _parse(args, kwargs, ['wavefunction', 'Q']), token)
+        ary = a.get('wavefunction')
         Q = a['Q']
-        if not isinstance(ary, np.ndarray) or ary.ndim != 2 or ary.dtype.kind not in 'fc':
+        if not isinstance(ary, np.ndarray) or ary.ndim != 2 or ary.dtype.kind not in 'fciub':
             return
+        if ary.dtype.kind in 'iub':
+            ary = ary.astype(np.float64)      # an integer / boolean image is a real field
         try:
             Qf = float(Q)
         except Exception:
@@ -466,9 +632,15 @@ def fixed_post(fn, fwd):
     @_safe
     def post(token, args, kwargs, result):
         a = _parse(args, kwargs, names)
-        ary = token
-        if not isinstance(ary, np.ndarray) or ary.ndim != 2 or ary.dtype.kind not in 'fc':
+        _note_mutation(fn, a, token)
+        a.update(token)                                 # every argument as it was before the call
+        ary = a.get('wavefunction')
+        if not isinstance(ary, np.ndarray) or ary.ndim != 2 or ary.dtype.kind not in 'fciub':
             return
+        if ary.dtype.kind in 'iub':
+            if a.get('method', 'mdft') == 'czt':
+                return                                  # judged (and keyed) by the contract on the nested czt2 / iczt2 call
+            ary = ary.astype(np.float64)
         try:
             out = tuple(int(s) for s in pair(a['output_samples']))
         except Exception:
@@ -488,7 +660,8 @@ def fixed_post(fn, fwd):
         if scale == 0:
             return
         CTX.observe('fixed-sampling.physical-Q')
-        single = is_single(ary.dtype) or (method == 'mdft' and conf_bits() == 32)
+        # a shift handed over in a float32 container is converted to samples in float32 by numpy's promotion rules
+        single = is_single(ary.dtype) or (method == 'mdft' and conf_bits() == 32) or low_precision(a.get('shift', (0, 0)))
         rtol = rtol_for(method, single, ary.shape, (Q, Q), out, sh)
         if rtol is None:
             CTX.observe('fixed-sampling.physical-Q', -1)
@@ -515,24 +688,30 @@ def fixed_post(fn, fwd):
     return post
 
 
-def _snap0(args, kwargs):
-    x = args[0] if args else kwargs.get('wavefunction')
-    return np.array(x, copy=True) if isinstance(x, np.ndarray) else x
+FIXED_NAMES = ['wavefunction', 'input_dx', 'prop_dist', 'wavelength', 'output_dx', 'output_samples', 'shift', 'method']
 
 
 def install():
     from prysm import fttools, propagation
     M, C = fttools.MatrixDFTExecutor, fttools.ChirpZTransformExecutor
-    attach(M, 'dft2', pre=_snap(['ary']), post=engine_post('mdft', 'dft2', True))
-    attach(M, 'idft2', pre=_snap(['ary']), post=engine_post('mdft', 'idft2', False))
-    attach(M, 'dft2_backprop', pre=_snap(['fbar']), post=backprop_post('dft2_backprop'))
-    attach(M, 'idft2_backprop', pre=_snap(['fbar']), post=backprop_post('idft2_backprop'))
-    attach(C, 'czt2', pre=_snap(['ary']), post=engine_post('czt', 'czt2', True))
-    attach(C, 'iczt2', pre=_snap(['ary']), post=engine_post('czt', 'iczt2', False))
-    attach(propagation, 'focus', pre=_snap0, post=fft_post('focus', True))
-    attach(propagation, 'unfocus', pre=_snap0, post=fft_post('unfocus', False))
-    attach(propagation, 'focus_fixed_sampling', pre=_snap0, post=fixed_post('focus_fixed_sampling', True))
-    attach(propagation, 'unfocus_fixed_sampling', pre=_snap0, post=fixed_post('unfocus_fixed_sampling', False))
+    E = ['ary', 'Q', 'samples_out', 'shift']
+    attach(M, 'dft2', pre=_snap(E), post=engine_post('mdft', 'dft2', True))
+    attach(M, 'idft2', pre=_snap(E), post=engine_post('mdft', 'idft2', False))
+    attach(M, 'dft2_backprop', pre=_snap(['fbar', 'Q', 'samples_in', 'shift']), post=backprop_post('dft2_backprop'))
+    attach(M, 'idft2_backprop', pre=_snap(['fbar', 'Q', 'samples_out', 'shift']), post=backprop_post('idft2_backprop'))
+    attach(C, 'czt2', pre=_snap(E), post=engine_post('czt', 'czt2', True))
+    attach(C, 'iczt2', pre=_snap(E), post=engine_post('czt', 'iczt2', False))
+    attach(propagation, 'focus', pre=_snap(['wavefunction', 'Q'], skip_self=False), post=fft_post('focus', True))
+    attach(propagation, 'unfocus', pre=_snap(['wavefunction', 'Q'], skip_self=False), post=fft_post('unfocus', False))
+    attach(propagation, 'focus_fixed_sampling', pre=_snap(FIXED_NAMES, skip_self=False), post=fixed_post('focus_fixed_sampling', True))
+    attach(propagation, 'unfocus_fixed_sampling', pre=_snap(FIXED_NAMES, skip_self=False), post=fixed_post('unfocus_fixed_sampling', False))
+
+
+def install_monitors(ctx):
+    """Attach the contracts for the repository's own test traffic (vp/pytest_monitors.py)."""
+    global CTX
+    CTX = ctx
+    install()
 
 
 # ------------------------------------------------------------------------------------------ workloads
@@ -588,7 +767,8 @@ def grid_class(m, n, M, N):
 
 def wl_grid(ctx, rng):
     """Shape grid (m,n) in [1..7]^2 x (M,N) in [1..8]^2 (quick: stratified sample; thorough: all of it)."""
-    pairs = [(m, n, M, N) for m in range(1, 8) for n in range(1, 8) for M in range(1, 9) for N in range(1, 9)]
+    hi_in, hi_out = ctx.pick((7, 8), (10, 12))
+    pairs = [(m, n, M, N) for m in range(1, hi_in + 1) for n in range(1, hi_in + 1) for M in range(1, hi_out + 1) for N in range(1, hi_out + 1)]
     pairs.sort(key=lambda p: (p[0] * p[1] + p[2] * p[3], p))
     if ctx.quick:
         groups = {}
@@ -606,7 +786,7 @@ def wl_grid(ctx, rng):
         chosen.sort(key=lambda p: (p[0] * p[1] + p[2] * p[3], p))
         pairs = chosen
     else:
-        ctx.note('shape_grid', 'all input shapes (m,n) in [1..7]^2 x all output shapes (M,N) in [1..8]^2 (3136 pairs) x 3 Q kinds x 3 shift '
+        ctx.note('shape_grid', f'all input shapes (m,n) in [1..{hi_in}]^2 x all output shapes (M,N) in [1..{hi_out}]^2 ({len(pairs)} pairs) x 3 Q kinds x 3 shift '
                                'kinds x 2 directions x 2 engines, dtype alternating real/complex')
     k = -1
     for (m, n, M, N) in pairs:
@@ -628,8 +808,12 @@ def wl_grid(ctx, rng):
 
 def wl_random(ctx, rng):
     """Larger random cases (any parity, Q>0, outputs smaller or larger than the input)."""
-    nmax = ctx.pick(20, 33)
-    for _ in range(ctx.share(ctx.pick(160, 12000))):
+    nmax = ctx.pick(20, 64)
+    from prysm import fttools as _ft
+    for _i in range(ctx.share(ctx.pick(160, 200000))):
+        if _i % 4000 == 3999:          # bound the memory held by the shared caches
+            _ft.mdft.clear()
+            _ft.czt.clear()
         m, n = (int(v) for v in rng.integers(1, nmax + 1, 2))
         if rng.random() < 0.3:
             n = m
@@ -656,8 +840,8 @@ def wl_random(ctx, rng):
         ctx.case(desc, nontrivial=nontrivial(a))
         drive_engine(ctx, method, fwd, a, Q, (M, N), shift, desc)
     if not ctx.quick:
-        for _ in range(ctx.share(40)):
-            m, n, M, N = (int(v) for v in rng.integers(34, 97, 4))
+        for _ in range(ctx.share(1600)):
+            m, n, M, N = (int(v) for v in rng.integers(34, 201, 4))
             qk = Q_KINDS[int(rng.integers(3))]
             sk = SHIFT_KINDS[int(rng.integers(3))]
             Q, shift = pick_Q(qk, rng), pick_shift(sk, rng)
@@ -675,34 +859,39 @@ def wl_random(ctx, rng):
 
 
 def wl_float32(ctx, rng):
-    """The float32 configuration: same classes, float32 / complex64 input."""
+    """The float32 configuration (same classes, float32 / complex64 input) and *mixed* dtypes under either configuration:
+    float64 data under precision 32, float32 data under precision 64."""
     from ..util import precision
-    with precision(32):
-        for _ in range(ctx.share(ctx.pick(240, 12000))):
-            m, n = (int(v) for v in rng.integers(1, 10, 2))
-            if rng.random() < 0.4:
-                n = m
-            M, N = (int(v) for v in rng.integers(1, 12, 2))
-            if rng.random() < 0.4:
-                N = M
-            qk = Q_KINDS[int(rng.integers(3))]
-            sk = SHIFT_KINDS[int(rng.integers(3))]
-            Q, shift = pick_Q(qk, rng), pick_shift(sk, rng)
-            fwd = bool(rng.integers(2))
-            method = ('mdft', 'czt')[int(rng.integers(2))]
-            cplx = bool(rng.integers(2))
-            seed = ctx.subseed(rng)
-            a = make_input((m, n), cplx, seed, bits=32)
-            desc = {'wl': 'float32', 'in': (m, n), 'out': (M, N), 'Q': Q, 'shift': shift, 'cplx': cplx, 'fwd': fwd, 'method': method,
-                    'seed': seed, 'class': f'f32:{method}:{grid_class(m, n, M, N)}:Q{qk}:sh{sk}'}
-            ctx.case(desc, nontrivial=nontrivial(a))
+    nmax = ctx.pick(9, 24)
+    for _ in range(ctx.share(ctx.pick(300, 240000))):
+        conf = 32 if rng.random() < 0.75 else 64
+        dbits = 32 if (conf == 64 or rng.random() < 0.75) else 64
+        m, n = (int(v) for v in rng.integers(1, nmax + 1, 2))
+        if rng.random() < 0.4:
+            n = m
+        M, N = (int(v) for v in rng.integers(1, nmax + 3, 2))
+        if rng.random() < 0.4:
+            N = M
+        qk = Q_KINDS[int(rng.integers(3))]
+        sk = SHIFT_KINDS[int(rng.integers(3))]
+        Q, shift = pick_Q(qk, rng), pick_shift(sk, rng)
+        fwd = bool(rng.integers(2))
+        method = ('mdft', 'czt')[int(rng.integers(2))]
+        cplx = bool(rng.integers(2))
+        seed = ctx.subseed(rng)
+        a = make_input((m, n), cplx, seed, bits=dbits)
+        desc = {'wl': 'float32', 'in': (m, n), 'out': (M, N), 'Q': Q, 'shift': shift, 'cplx': cplx, 'fwd': fwd, 'method': method,
+                'seed': seed, 'precision': conf, 'data_bits': dbits,
+                'class': f'f32:{method}:{grid_class(m, n, M, N)}:Q{qk}:sh{sk}:p{conf}/d{dbits}'}
+        ctx.case(desc, nontrivial=nontrivial(a))
+        with precision(conf):
             drive_engine(ctx, method, fwd, a, Q, (M, N), shift, desc)
 
 
 def wl_czt_fractional_shift(ctx, rng):
     """Sweep of fractional shifts through czt2 (np.arange with float end points builds the kernel)."""
     from prysm import fttools
-    grid = np.linspace(-3, 3, ctx.pick(61, 241))
+    grid = np.linspace(-3, 3, ctx.pick(61, 1201))
     k = -1
     for s in grid:
         for (n, M) in ((5, 5), (8, 8), (8, 10), (7, 16)):
@@ -724,7 +913,7 @@ def wl_fft_route(ctx, rng):
     """focus / unfocus and the Wavefront methods over every shape up to 9x9 and integer / non-integer Q."""
     from prysm import propagation
     Qs = [1, 2, 3, 4, 1.5, 2.5, 1.25]
-    nmax = ctx.pick(9, 12)
+    nmax = ctx.pick(9, 24)
     k = -1
     for m in range(1, nmax + 1):
         for n in range(1, nmax + 1):
@@ -756,8 +945,8 @@ def wl_fft_route(ctx, rng):
                     CUR['desc'] = None
     from ..util import precision
     with precision(32):
-        for _ in range(ctx.share(ctx.pick(40, 600))):
-            m, n = (int(v) for v in rng.integers(1, 13, 2))
+        for _ in range(ctx.share(ctx.pick(40, 8000))):
+            m, n = (int(v) for v in rng.integers(1, ctx.pick(13, 33), 2))
             Q = Qs[int(rng.integers(len(Qs)))]
             seed = ctx.subseed(rng)
             a = make_input((m, n), True, seed, bits=32)
@@ -775,14 +964,16 @@ def wl_fft_route(ctx, rng):
 def wl_fixed_sampling(ctx, rng):
     """focus_fixed_sampling / unfocus_fixed_sampling (functions and Wavefront methods), both engines."""
     from prysm import propagation
-    for _ in range(ctx.share(ctx.pick(260, 10000))):
+    from ..util import precision
+    nmax = ctx.pick(10, 24)
+    for _ in range(ctx.share(ctx.pick(300, 240000))):
         square = rng.random() < 0.7
-        m = int(rng.integers(1, 11))
-        n = m if square else int(rng.integers(1, 11))
-        s = int(rng.integers(1, 13))
+        m = int(rng.integers(1, nmax + 1))
+        n = m if square else int(rng.integers(1, nmax + 1))
+        s = int(rng.integers(1, nmax + 3))
         samples = s if rng.random() < 0.5 else (s, s)
         if not square and rng.random() < 0.5:
-            samples = (s, int(rng.integers(1, 13)))
+            samples = (s, int(rng.integers(1, nmax + 3)))
         wvl = [0.5, 0.6328, 1.55][int(rng.integers(3))]
         efl = [50., 100., 250.][int(rng.integers(3))]
         dxi = [0.1, 0.05, 1.0][int(rng.integers(3))]
@@ -792,7 +983,9 @@ def wl_fixed_sampling(ctx, rng):
         sk = SHIFT_KINDS[int(rng.integers(3))]
         sh = pick_shift(sk, rng)
         seed = ctx.subseed(rng)
-        a = make_input((m, n), True, seed)
+        bits = 32 if rng.random() < 0.25 else 64                # configured precision
+        dbits = bits if rng.random() < 0.75 else (96 - bits)     # precision of the data (mixed in a quarter of the cases)
+        a = make_input((m, n), True, seed, bits=dbits)
         via = ('function', 'Wavefront')[int(rng.integers(2))]
         if fwd:
             dxo = wvl * efl / (m * dxi) / Qt          # focal-plane spacing, um
@@ -803,12 +996,12 @@ def wl_fixed_sampling(ctx, rng):
         # class of the shift the engine actually receives: k*dx/dx is not always the integer k in floating point
         sk = shift_class((shift[0] / dxo, shift[1] / dxo))
         desc = {'wl': 'fixed-sampling', 'in': (m, n), 'samples': samples, 'wvl': wvl, 'efl': efl, 'input_dx': dxi, 'output_dx': dxo,
-                'shift': shift, 'fwd': fwd, 'method': method, 'via': via, 'seed': seed,
-                'class': f'fixed:{method}:{"focus" if fwd else "unfocus"}:{via}:{shape_kind((m, n))}:sh{sk}'}
+                'shift': shift, 'fwd': fwd, 'method': method, 'via': via, 'seed': seed, 'precision': bits, 'data_bits': dbits,
+                'class': f'fixed:{method}:{"focus" if fwd else "unfocus"}:{via}:{shape_kind((m, n))}:sh{sk}:p{bits}/d{dbits}'}
         ctx.case(desc, nontrivial=nontrivial(a))
         CUR['desc'] = desc
         try:
-            with ctx.guard(f'C01/{method}/shift:{sk}', desc, what=f'{method} transform of an in-domain input'):
+            with precision(bits), ctx.guard(f'C01/{method}/shift:{sk}', desc, what=f'{method} transform of an in-domain input'):
                 if via == 'function':
                     f = propagation.focus_fixed_sampling if fwd else propagation.unfocus_fixed_sampling
                     f(a, dxi, efl, wvl, dxo, samples, shift=shift, method=method)
@@ -896,7 +1089,13 @@ ARGSET_POOL = [
     {'in': (6, 3), 'Q': (1.3, 2.2), 'out': (4, 4), 'shift': (2, 0)},
     {'in': (1, 5), 'Q': 2.5, 'out': (2, 9), 'shift': (0, 1)},
     {'in': (7, 7), 'Q': 3, 'out': (9, 9), 'shift': (-1, 3)},
+    # same array sizes as entries 0 and 3 with another Q / shift: state keyed on the sizes alone is shared, the bases are not
+    {'in': (5, 5), 'Q': 2.25, 'out': (7, 7), 'shift': (0, 0)},
+    {'in': (5, 5), 'Q': (1.5, 1.75), 'out': (7, 7), 'shift': (0.5, 3)},
+    {'in': (4, 6), 'Q': 1.5, 'out': (5, 8), 'shift': (-1, 2)},
+    {'in': (4, 6), 'Q': (2, 3), 'out': (5, 8), 'shift': (0, 0)},
 ]
+SAME_SIZE_FAMILIES = [(0, 7, 8), (3, 9, 10)]
 
 
 def wl_histories(ctx, rng):
@@ -912,11 +1111,25 @@ def wl_histories(ctx, rng):
                 desc = {'wl': 'history-enum', 'ops': list(seq), 'args': 0, 'class': f'history:enum:len{L}'}
                 ctx.case(desc, nontrivial=any(l not in ('mclr', 'cclr', 'p32', 'p64') for l in seq))
                 run_history(ctx, ops, ARGSET_POOL, 7, desc)
-        ctx.note('histories', 'all 1884 sequences of length <= 3 over the 12-letter op alphabet (one argument set) + random histories')
-    maxlen = ctx.pick(8, 14)
-    for _ in range(ctx.share(ctx.pick(200, 6000))):
+        short = ['D', 'I', 'C', 'Ic', 'Db', 'p32', 'p64', 'mclr', 'Da']
+        for seq in itertools.product(short, repeat=4):
+            k += 1
+            if not ctx.mine(k):
+                continue
+            # two argument sets of the same array sizes (0 and 7) alternate, so a cache keyed on sizes alone is hit with another Q / shift
+            ops = [(l, (0, 7)[i % 2], 1 + i if l == 'Da' else 0) for i, l in enumerate(seq)]
+            desc = {'wl': 'history-enum', 'ops': list(seq), 'args': [0, 7], 'class': 'history:enum:len4'}
+            ctx.case(desc, nontrivial=any(l not in ('mclr', 'p32', 'p64') for l in seq))
+            run_history(ctx, ops, ARGSET_POOL, 7, desc)
+        ctx.note('histories', 'all 1884 sequences of length <= 3 over the 12-letter op alphabet (one argument set), all 6561 sequences of length 4 over a '
+                              '9-letter alphabet alternating between two argument sets of equal array sizes, + random histories')
+    maxlen = ctx.pick(8, 24)
+    for _ in range(ctx.share(ctx.pick(200, 160000))):
         L = int(rng.integers(2, maxlen + 1))
-        pool = [int(v) for v in rng.choice(len(ARGSET_POOL), size=2, replace=False)]
+        if rng.random() < 0.5:       # a family of argument sets with the same array sizes (other Q, other shift)
+            pool = list(SAME_SIZE_FAMILIES[int(rng.integers(len(SAME_SIZE_FAMILIES)))])
+        else:
+            pool = [int(v) for v in rng.choice(len(ARGSET_POOL), size=2, replace=False)]
         ops = []
         for _i in range(L):
             r = rng.random()
@@ -924,7 +1137,7 @@ def wl_histories(ctx, rng):
                 l = ('p32', 'p64', 'mclr', 'cclr')[int(rng.integers(4))]
             else:
                 l = ('D', 'I', 'Db', 'Ib', 'C', 'Ic', 'Da', 'Ca')[int(rng.integers(8))]
-            ops.append((l, pool[int(rng.integers(2))], int(rng.integers(0, 6)) if rng.random() < 0.5 else 0))
+            ops.append((l, pool[int(rng.integers(len(pool)))], int(rng.integers(0, 6)) if rng.random() < 0.5 else 0))
         seed = ctx.subseed(rng)
         sw = sum(1 for o in ops if o[0] in ('p32', 'p64'))
         desc = {'wl': 'history', 'ops': [list(o) for o in ops], 'seed': seed, 'class': f'history:random:len{L}:switches{min(sw, 3)}'}
@@ -942,6 +1155,465 @@ def wl_histories(ctx, rng):
             desc = {'wl': 'history-min', 'ops': [list(o) for o in ops], 'args': 1, 'class': 'history:minimal-Q-spelling'}
             ctx.case(desc)
             run_history(ctx, list(ops), ARGSET_POOL, 11, desc)
+        # minimal shift-spelling histories: the same shift as numpy.float32 scalars, then as the equal python floats (and reversed)
+        from prysm import fttools
+        for eng, order in (('czt', 'f32-first'), ('czt', 'py-first'), ('mdft', 'f32-first')):
+            ex = fttools.czt if eng == 'czt' else fttools.mdft
+            f = ex.czt2 if eng == 'czt' else ex.dft2
+            s32 = (np.float32(0.0), np.float32(0.3))
+            spy = tuple(float(x) for x in s32)
+            desc = {'wl': 'history-min', 'engine': eng, 'order': order, 'shift': spy, 'class': 'history:minimal-shift-spelling'}
+            ctx.case(desc)
+            ctx.observe('history.ops', 2)
+            ex.clear()
+            CUR['desc'] = desc
+            try:
+                a = make_input((4, 4), True, 11)
+                with ctx.guard(f'C01/{eng}/shift:frac', desc, what=f'{eng} transform of an in-domain input'):
+                    for sh in ((s32, spy) if order == 'f32-first' else (spy, s32)):
+                        f(a, (1, 3), 7, sh)
+            finally:
+                CUR['desc'] = None
+                ex.clear()
+
+
+# ---- class A: repeat / aliasing -------------------------------------------------------------------
+def _changed(objs, snaps):
+    """Names of the argument objects whose value is no longer what it was when they were built."""
+    return [k for k in objs if isinstance(snaps[k], (np.ndarray, list)) and not _same_value(objs[k], snaps[k])]
+
+
+def _close_rel(x, y, rtol):
+    x, y = np.asarray(x), np.asarray(y)
+    if x.shape != y.shape:
+        return False
+    if not x.size:
+        return True
+    if not (np.isfinite(x).all() and np.isfinite(y).all()):
+        return False
+    return float(np.max(np.abs(x - y))) <= rtol * float(np.max(np.abs(y)))
+
+
+DATA_ARGS = ('ary', 'wavefunction', 'field')
+
+
+def repeat_laws(ctx, label, call, objs, plain, desc, single, lowprec, forms=(), prefix='C01'):
+    """The two class-A laws around one routine.
+
+    call(**objs)   -- the routine with the caller-owned argument objects `objs` (dict name -> object)
+    forms          -- other spellings of the same computation with the same objects (method form, other routine); their
+                      results must agree with the first call as well
+    plain()        -- the same computation with freshly built plain arguments (python tuples / ints, a C-ordered copy)
+
+    repeat.same-objects            the second, third ... call with the *same objects* returns what the first returned
+    alias.container-independence   the result does not depend on container types / memory layout (float32 containers: to
+                                   float32 accuracy, since numpy then computes with them in float32)
+    Returns the first result (or None when prysm raised: reported by the guard)."""
+    snaps = {k: _copyarg(v) for k, v in objs.items()}
+    outs = []
+    box = [None]
+    with ctx.guard(f'{prefix}/repeat/{label}', desc, what=f'{label} with {desc.get("containers")}'):
+        # every result is copied at once: a routine may hand back memory it shares with an argument and rewrite it later
+        first = np.array(call(**objs), copy=True)
+        mut_first = _changed(objs, snaps)            # argument objects rewritten by the very first call
+        outs.append(('second call', np.array(call(**objs), copy=True)))
+        for name, f in forms:
+            outs.append((name, np.array(f(**objs), copy=True)))
+        outs.append(('call after the other forms', np.array(call(**objs), copy=True)))
+        box[0] = first
+    if box[0] is None:
+        return None
+    first = box[0]
+    eps_mult = 10
+    for name, o in outs:
+        ctx.observe('repeat.same-objects')
+        ok = _same(o, first, eps_mult) if np.asarray(o).dtype == np.asarray(first).dtype else _close_rel(o, first, 1e-3 if single else 1e-12)
+        if not ok:
+            mut = sorted(set(mut_first) | set(_changed(objs, snaps)))
+            # the memory layout of a rewritten data array is incidental, the container type of a rewritten Q / samples / shift is not
+            lab = '+'.join((k if k in DATA_ARGS else f'{k}({desc["containers"].get(k, "?")})') for k in mut) if mut else 'no-argument(state-elsewhere)'
+            ctx.violation(f'{prefix}/repeat/{label}/later-call-with-the-same-argument-objects-differs/mutated:{lab}',
+                          f'{label}: a later call with the same argument objects ({name}) returns something else than the first call; '
+                          f'argument objects whose value changed: {mut or "none"}', desc, which=name,
+                          max_abs_diff=(float(np.max(np.abs(np.asarray(o) - np.asarray(first)))) if np.shape(o) == np.shape(first) else None))
+            break
+    box = [None]
+    with ctx.guard(f'{prefix}/repeat/{label}', desc, what=f'{label} with plain arguments'):
+        box[0] = plain({})
+    if box[0] is None:
+        return first
+    ctx.observe('alias.container-independence')
+    rtol = 1e-3 if single else (1e-4 if lowprec else 1e-12)
+    if not _close_rel(first, box[0], rtol):
+        # which single argument, handed over in its container / layout with everything else plain, reproduces the difference?
+        culprits = []
+        for k in objs:
+            try:
+                with quiet_monitors():
+                    o = plain({k: _copyarg(snaps[k])})
+                if not _close_rel(o, box[0], rtol):
+                    culprits.append(k)
+            except Exception:
+                culprits.append(k)
+        lab = '+'.join(f'{k}({desc["containers"].get(k, "?")})' for k in culprits) if culprits else 'combination-only'
+        ctx.violation(f'{prefix}/alias/{label}/result-depends-on-container-or-layout-of:{lab}',
+                      f'{label}: the same numbers in another container type / the same array in another memory layout give a different result',
+                      desc, rtol=rtol, max_abs_diff=(float(np.max(np.abs(np.asarray(first) - np.asarray(box[0]))))
+                                                     if np.shape(first) == np.shape(box[0]) else None))
+    return first
+
+
+def quiet_monitors():
+    from ..contracts import quiet
+    return quiet()
+
+
+def _samples_container(kind, M, N):
+    if kind == 'int':
+        return int(M)
+    if kind == 'tuple':
+        return (int(M), int(N))
+    if kind == 'np-ints':
+        return (np.int64(M), np.int32(N))
+    if kind == 'np-int-scalar':
+        return np.int64(M)
+    if kind == 'list':
+        return [int(M), int(N)]
+    if kind == 'nd':
+        return np.array([M, N])
+    raise ValueError(kind)
+
+
+def wl_repeat(ctx, rng):
+    """Class A: every routine of the property called repeatedly with the *same argument objects* (data arrays in several
+    memory layouts, Q / samples / shift in the container types the API accepts), in its function and method form and across
+    engines; judged by the repeat laws above and, call by call, by the contracts."""
+    from prysm import fttools, propagation as P
+    from ..util import precision
+    n = ctx.share(ctx.pick(200, 80000))
+    for _ in range(n):
+        route = ('engine', 'engine', 'fixed', 'fixed', 'fft')[int(rng.integers(5))]
+        bits = 32 if rng.random() < 0.15 else 64
+        dbits = bits if rng.random() < 0.8 else (96 - bits)         # mixed: data of the other precision
+        single = bits == 32 or dbits == 32
+        layout = LAYOUTS[int(rng.integers(len(LAYOUTS)))]
+        seed = ctx.subseed(rng)
+        method = ('mdft', 'czt')[int(rng.integers(2))]
+        fwd = bool(rng.integers(2))
+        sk = SHIFT_KINDS[int(rng.integers(3))]
+        if route == 'engine':
+            m, n_ = (int(v) for v in rng.integers(2, 10, 2))
+            M, N = (int(v) for v in rng.integers(2, 11, 2))
+            if rng.random() < 0.4:
+                N = M
+            qkind = ('py', 'tuple', 'list', 'nd-f64', 'nd-f32', 'nd-int', 'np-scalars')[int(rng.integers(7))]
+            Qv = pair(pick_Q('pair' if qkind != 'py' else 'scalar', rng))
+            if qkind == 'nd-int':
+                Qv = (float(int(rng.integers(1, 4))), float(int(rng.integers(1, 4))))
+            Qc = Qv[0] if qkind == 'py' else make_container(qkind, Qv)
+            Qplain = Qv[0] if qkind == 'py' else container_values(Qc)
+            skinds = ['tuple', 'np-ints'] + (['int', 'np-int-scalar'] if M == N else []) + (['list', 'nd'] if method == 'czt' else [])
+            skind = skinds[int(rng.integers(len(skinds)))]
+            Sc = _samples_container(skind, M, N)
+            sh = pick_shift(sk, rng)
+            hkinds = ['tuple', 'np-scalars'] + (['list', 'nd-f64', 'nd-f32'] + (['nd-int'] if sk != 'frac' else []) if method == 'czt' else [])
+            hkind = hkinds[int(rng.integers(len(hkinds)))]
+            shc = make_container(hkind, sh)
+            shplain = container_values(shc)
+            a0 = make_input((m, n_), True, seed, bits=dbits)
+            a = relayout(a0, layout)
+            ex = fttools.mdft if method == 'mdft' else fttools.czt
+            other = fttools.czt if method == 'mdft' else fttools.mdft
+            fn = {('mdft', True): 'dft2', ('mdft', False): 'idft2', ('czt', True): 'czt2', ('czt', False): 'iczt2'}[(method, fwd)]
+            ofn = {'dft2': 'czt2', 'idft2': 'iczt2', 'czt2': 'dft2', 'iczt2': 'idft2'}[fn]
+            conts = {'ary': layout, 'Q': qkind, 'samples_out': skind, 'shift': hkind}
+            desc = {'wl': 'repeat', 'route': 'engine', 'fn': fn, 'in': (m, n_), 'out': (M, N), 'Q': Qplain, 'shift': shplain, 'containers': conts,
+                    'precision': bits, 'data_bits': dbits, 'seed': seed,
+                    'class': f'repeat:engine:{fn}:Q={qkind}:samples={skind}:shift={hkind}/{sk}:{layout}:p{bits}/d{dbits}'}
+            ctx.case(desc)
+            objs = {'ary': a, 'Q': Qc, 'samples_out': Sc, 'shift': shc}
+            forms = []
+            if hkind in ('tuple', 'np-scalars') and skind not in ('list', 'nd'):      # containers both engines accept
+                def other_between(other=other, ofn=ofn, ex=ex, fn=fn, **kw):
+                    getattr(other, ofn)(**kw)
+                    return getattr(ex, fn)(**kw)
+                forms.append((f'{ofn} in between', other_between))
+            base = {'ary': lambda: np.array(a0, order='C', copy=True), 'Q': lambda: Qplain, 'samples_out': lambda: (M, N), 'shift': lambda: shplain}
+
+            def plain(over, base=base, ex=ex, fn=fn):
+                kw = {k: (over[k] if k in over else base[k]()) for k in base}
+                return getattr(ex, fn)(**kw)
+            CUR['desc'] = desc
+            try:
+                with precision(bits):
+                    repeat_laws(ctx, f'{method}.{fn}', lambda **kw: getattr(ex, fn)(**kw), objs, plain, desc, single,
+                                low_precision(shc) or low_precision(Qc), forms)
+            finally:
+                CUR['desc'] = None
+        elif route == 'fixed':
+            square = rng.random() < 0.6
+            m = int(rng.integers(2, 10))
+            n_ = m if square else int(rng.integers(2, 10))
+            M = int(rng.integers(2, 11))
+            N = M if (square or rng.random() < 0.5) else int(rng.integers(2, 11))
+            skinds = ['tuple', 'np-ints'] + (['int', 'np-int-scalar'] if M == N else [])
+            skind = skinds[int(rng.integers(len(skinds)))]
+            Sc = _samples_container(skind, M, N)
+            wvl = [0.5, 0.6328, 1.55][int(rng.integers(3))]
+            efl = [50., 100., 250.][int(rng.integers(3))]
+            dxi = [0.1, 0.05, 1.0][int(rng.integers(3))]
+            Qt = [1, 2, 1.5, 3.3, round(float(rng.uniform(0.7, 4)), 3)][int(rng.integers(5))]
+            dxo = wvl * efl / (m * dxi) / Qt
+            if sk == 'none':
+                hkind, shc = 'tuple', (0, 0)
+            else:
+                hkind = SHIFT_CONTAINERS[int(rng.integers(len(SHIFT_CONTAINERS)))]
+                s = pick_shift(sk, rng)
+                phys = (s[0] * dxo, s[1] * dxo)
+                if hkind == 'nd-int':               # integer physical shift (microns / mm), any number of samples
+                    phys = (float(int(rng.integers(1, 4))) * (1 if rng.random() < 0.5 else -1), float(int(rng.integers(0, 3))))
+                shc = make_container(hkind, phys)
+            shplain = container_values(shc)
+            a0 = make_input((m, n_), True, seed, bits=dbits)
+            a = relayout(a0, layout)
+            fname = 'focus_fixed_sampling' if fwd else 'unfocus_fixed_sampling'
+            func = getattr(P, fname)
+            omethod = 'czt' if method == 'mdft' else 'mdft'
+            conts = {'wavefunction': layout, 'output_samples': skind, 'shift': hkind}
+            desc = {'wl': 'repeat', 'route': 'fixed', 'fn': fname, 'method': method, 'in': (m, n_), 'samples': (M, N), 'wvl': wvl, 'efl': efl,
+                    'input_dx': dxi, 'output_dx': dxo, 'shift': shplain, 'containers': conts, 'precision': bits, 'data_bits': dbits, 'seed': seed,
+                    'class': f'repeat:fixed:{fname}:{method}:samples={skind}:shift={hkind}/{sk}:{layout}:{shape_kind((m, n_))}:p{bits}/d{dbits}'}
+            ctx.case(desc)
+            objs = {'wavefunction': a, 'output_samples': Sc, 'shift': shc}
+
+            def call(wavefunction, output_samples, shift, method=method):
+                return func(wavefunction, dxi, efl, wvl, dxo, output_samples, shift=shift, method=method)
+
+            def via_wavefront(wavefunction, output_samples, shift):
+                w = P.Wavefront(wavefunction, wvl, dxi, space='pupil' if fwd else 'psf')
+                g = w.focus_fixed_sampling if fwd else w.unfocus_fixed_sampling
+                # the Wavefront methods take int or tuple samples (isinstance(samples, int)): numpy scalars are out of their domain
+                smp = output_samples if not isinstance(output_samples, np.integer) else int(output_samples)
+                return g(efl, dxo, smp, shift=shift, method=method).data
+
+            def other_method_between(wavefunction, output_samples, shift):
+                call(wavefunction, output_samples, shift, method=omethod)
+                return call(wavefunction, output_samples, shift)
+            base = {'wavefunction': lambda: np.array(a0, order='C', copy=True), 'output_samples': lambda: (M, N), 'shift': lambda: shplain}
+
+            def plain(over, base=base):
+                kw = {k: (over[k] if k in over else base[k]()) for k in base}
+                return call(**kw)
+            CUR['desc'] = desc
+            try:
+                with precision(bits):
+                    repeat_laws(ctx, f'{fname}/{method}', call, objs, plain, desc, single, low_precision(shc),
+                                [('Wavefront method form', via_wavefront), (f'method={omethod} in between', other_method_between)])
+            finally:
+                CUR['desc'] = None
+        else:
+            m, n_ = (int(v) for v in rng.integers(1, 10, 2))
+            Q = [1, 2, 3, 1.5, 2.5, 1.25][int(rng.integers(6))]
+            a0 = make_input((m, n_), True, seed, bits=dbits)
+            a = relayout(a0, layout)
+            fname = 'focus' if fwd else 'unfocus'
+            func = getattr(P, fname)
+            desc = {'wl': 'repeat', 'route': 'fft', 'fn': fname, 'in': (m, n_), 'Q': Q, 'containers': {'wavefunction': layout},
+                    'precision': bits, 'data_bits': dbits, 'seed': seed,
+                    'class': f'repeat:fft:{fname}:{layout}:{"intQ" if float(Q).is_integer() else "fracQ"}:p{bits}/d{dbits}'}
+            ctx.case(desc, nontrivial=nontrivial(a))
+            objs = {'wavefunction': a}
+
+            def via_wavefront(wavefunction):
+                w = P.Wavefront(wavefunction, 0.55, 0.1, space='pupil' if fwd else 'psf')
+                return (w.focus(100., Q=Q) if fwd else w.unfocus(100., Q=Q)).data
+            CUR['desc'] = desc
+            try:
+                with precision(bits):
+                    repeat_laws(ctx, fname, lambda wavefunction: func(wavefunction, Q), objs,
+                                lambda over: func(over.get('wavefunction', np.array(a0, order='C', copy=True)), Q), desc,
+                                dbits == 32, False, [('Wavefront method form', via_wavefront)])
+            finally:
+                CUR['desc'] = None
+    fttools.mdft.clear()
+    fttools.czt.clear()
+
+
+# ---- class B: histories through the fixed-sampling wrappers ------------------------------------------
+WH_WVL = [0.5, 0.6328, 1.55]
+WH_EFL = [50., 100., 250.]
+WH_DXI = [0.1, 0.05, 1.0]
+WH_QT = [1, 2, 1.5, 3.3, 0.8, 2.7]
+
+
+def wl_wrapper_histories(ctx, rng):
+    """Histories on the *shared* executors made through focus_/unfocus_fixed_sampling (function and Wavefront form) and
+    to_fpm_and_back at FIXED array sizes: shifted and unshifted calls, changing wavelength / focal length / spacings /
+    shift between calls (so the basis caches miss while everything keyed on the sizes alone hits), both methods, precision
+    switches and clear() in between.  Every call is judged by the contracts: the nested engine call against the textbook
+    sum and a fresh executor, the wrapper against the physical Q."""
+    from prysm import fttools, propagation as P
+    from prysm.conf import config
+    n = ctx.share(ctx.pick(70, 40000))
+    maxlen = ctx.pick(7, 16)
+    for _ in range(n):
+        square = rng.random() < 0.7
+        m = int(rng.integers(2, 9))
+        shp = (m, m) if square else (m, int(rng.integers(2, 9)))
+        M = int(rng.integers(2, 11))
+        smp = (M, M) if square else (M, int(rng.integers(2, 11)))
+        L = int(rng.integers(3, maxlen + 1))
+        ops = []
+        for _j in range(L):
+            r = rng.random()
+            if r < 0.10:
+                ops.append((('p32', 'p64')[int(rng.integers(2))],))
+            elif r < 0.15:
+                ops.append((('mclr', 'cclr')[int(rng.integers(2))],))
+            else:
+                kind = ('F', 'Fw', 'U', 'Uw', 'T', 'Tw')[int(rng.integers(6))]
+                method = ('mdft', 'mdft', 'czt')[int(rng.integers(3))]
+                sk = SHIFT_KINDS[int(rng.integers(3))]
+                ops.append((kind, method, sk, int(rng.integers(3)), int(rng.integers(3)), int(rng.integers(3)), int(rng.integers(len(WH_QT))),
+                            list(pick_shift(sk, rng)), bool(rng.random() < 0.2)))
+        seed = ctx.subseed(rng)
+        nsh = sum(1 for o in ops if len(o) > 1 and o[2] != 'none')
+        desc = {'wl': 'wrapper-history', 'shape': shp, 'samples': smp, 'ops': [list(o) for o in ops], 'seed': seed,
+                'class': f'wrapper-history:{shape_kind(shp)}:len{L}:shifted{min(nsh, 3)}'}
+        ctx.case(desc, nontrivial=any(len(o) > 1 for o in ops))
+        fttools.mdft.clear()
+        fttools.czt.clear()
+        config.precision = 64
+        CUR['desc'] = desc
+        try:
+            for j, op in enumerate(ops):
+                ctx.observe('history.wrapper-ops')
+                if op[0] in ('p32', 'p64'):
+                    config.precision = int(op[0][1:])
+                    continue
+                if op[0] == 'mclr':
+                    fttools.mdft.clear()
+                    continue
+                if op[0] == 'cclr':
+                    fttools.czt.clear()
+                    continue
+                kind, method, sk, iw, ie, idx, iq, sh, mixed = op
+                bits = conf_bits()
+                dbits = (96 - bits) if mixed else bits
+                wvl, efl, dxi = WH_WVL[iw], WH_EFL[ie], WH_DXI[idx]
+                with ctx.guard(f'C01/{method}/shift:{sk}', desc, what=f'{method} transform of an in-domain input (fixed-sampling wrapper)'):
+                    if kind in ('F', 'Fw', 'T', 'Tw'):
+                        a = make_input(shp, True, seed + j, bits=dbits)
+                        dxo = wvl * efl / (shp[0] * dxi) / WH_QT[iq]
+                        shift = (sh[0] * dxo, sh[1] * dxo)
+                        if kind == 'F':
+                            P.focus_fixed_sampling(a, dxi, efl, wvl, dxo, smp, shift=shift, method=method)
+                        elif kind == 'Fw':
+                            P.Wavefront(a, wvl, dxi).focus_fixed_sampling(efl, dxo, smp, shift=shift, method=method)
+                        else:
+                            mask = make_input(smp, bool(j % 2), seed + 50 + j, bits=dbits)
+                            if kind == 'T':
+                                P.to_fpm_and_back(a, dxi, efl, wvl, mask, dxo, shift=shift, method=method)
+                            else:
+                                P.Wavefront(a, wvl, dxi).to_fpm_and_back(efl, mask, dxo, method=method, shift=shift)
+                    else:
+                        # focal-plane array of the *samples* shape back to a pupil of the pupil shape: the same two sizes
+                        a = make_input(smp, True, seed + j, bits=dbits)
+                        dxo = wvl * efl / (smp[0] * dxi) / WH_QT[iq]          # pupil spacing (mm); dxi is the focal spacing here
+                        shift = (sh[0] * dxo, sh[1] * dxo)
+                        if kind == 'U':
+                            P.unfocus_fixed_sampling(a, dxi, efl, wvl, dxo, shp, shift=shift, method=method)
+                        else:
+                            P.Wavefront(a, wvl, dxi, space='psf').unfocus_fixed_sampling(efl, dxo, shp, shift=shift, method=method)
+        finally:
+            CUR['desc'] = None
+            config.precision = 64
+            fttools.mdft.clear()
+            fttools.czt.clear()
+
+
+# ---- class D: input dtypes and extreme aspect ratios ----------------------------------------------------
+INT_DTYPES = [np.int64, np.int32, np.int16, np.int8, np.uint8, np.uint16, np.bool_]
+
+
+def wl_dtypes_and_aspect(ctx, rng):
+    """Integer / boolean images (0/1 aperture masks, detector counts) through every route, and arrays of extreme aspect ratio
+    (2 x 64, 96 x 3, 1 x 128) in and out."""
+    from prysm import fttools, propagation as P
+    n = ctx.share(ctx.pick(120, 6000))
+    for i in range(n):
+        dt = INT_DTYPES[int(rng.integers(len(INT_DTYPES)))]
+        m, n_ = (int(v) for v in rng.integers(1, 10, 2))
+        M, N = (int(v) for v in rng.integers(1, 11, 2))
+        seed = ctx.subseed(rng)
+        r = np.random.default_rng(seed)
+        if dt is np.bool_:
+            a = r.random((m, n_)) < 0.7
+        else:
+            a = r.integers(0, 4, (m, n_)).astype(dt)
+        route = ('engine', 'engine', 'fixed', 'fft')[int(rng.integers(4))]
+        method = ('mdft', 'czt')[int(rng.integers(2))]
+        fwd = bool(rng.integers(2))
+        sk = SHIFT_KINDS[int(rng.integers(3))]
+        shift = pick_shift(sk, rng)
+        desc = {'wl': 'int-dtype', 'route': route, 'method': method, 'fwd': fwd, 'in': (m, n_), 'out': (M, N), 'dtype': np.dtype(dt).name,
+                'shift': shift, 'seed': seed, 'class': f'dtype:{np.dtype(dt).name}:{route}:{method if route != "fft" else "fft"}:sh{sk}'}
+        ctx.case(desc, nontrivial=int(np.count_nonzero(a)) >= 2)
+        CUR['desc'] = desc
+        try:
+            if route == 'fft':
+                with ctx.guard('C01/fft-route/integer-or-bool-input', desc):
+                    Q = [1, 2, 1.5][int(rng.integers(3))]
+                    (P.focus if fwd else P.unfocus)(a, Q)
+                continue
+            try:
+                if route == 'engine':
+                    Q = pick_Q(Q_KINDS[int(rng.integers(3))], rng)
+                    ex = fttools.mdft if method == 'mdft' else fttools.czt
+                    fn = {('mdft', True): 'dft2', ('mdft', False): 'idft2', ('czt', True): 'czt2', ('czt', False): 'iczt2'}[(method, fwd)]
+                    getattr(ex, fn)(a, Q, (M, N), shift)
+                else:
+                    wvl, efl, dxi = 0.55, 100., 0.1
+                    dxo = wvl * efl / (m * dxi) / [1, 2, 1.5, 3.3][int(rng.integers(4))]
+                    f = P.focus_fixed_sampling if fwd else P.unfocus_fixed_sampling
+                    f(a, dxi, efl, wvl, dxo, (M, N), shift=(shift[0] * dxo, shift[1] * dxo), method=method)
+            except HarnessError:
+                raise
+            except Exception as e:  # noqa
+                if method == 'czt':
+                    ctx.violation(KEY_INTDTYPE, WHAT_INTDTYPE, desc, exception=repr(e)[:200])
+                else:
+                    ctx.violation(f'C01/mdft/integer-or-bool-input/raises:{type(e).__name__}',
+                                  f'mdft transform of an integer / boolean image raises {type(e).__name__}', desc, exception=repr(e)[:200])
+        finally:
+            CUR['desc'] = None
+    # extreme aspect ratios
+    shapes = [(2, 64), (96, 3), (1, 128), (128, 1), (3, 200), (64, 2)]
+    outs = [(2, 64), (96, 3), (1, 128), (5, 5), (64, 3), (3, 97), (200, 1)]
+    if not ctx.quick:
+        shapes += [(1, 512), (400, 2), (5, 300)]
+        outs += [(1, 600), (333, 2), (2, 2)]
+    k = -1
+    for shp in shapes:
+        for out in outs:
+            for method in ('mdft', 'czt'):
+                for sk in ('none', 'frac'):
+                    k += 1
+                    if not ctx.mine(k):
+                        continue
+                    if ctx.quick and (k // ctx.nshards) % 2:
+                        continue
+                    fwd = bool(k % 2)
+                    Q = pick_Q(Q_KINDS[k % 3], rng)
+                    shift = pick_shift(sk, rng)
+                    seed = ctx.subseed(rng)
+                    a = make_input(shp, True, seed)
+                    desc = {'wl': 'aspect', 'in': shp, 'out': out, 'Q': Q, 'shift': shift, 'fwd': fwd, 'method': method, 'seed': seed,
+                            'class': f'aspect:{method}:{shape_kind(shp)}->{shape_kind(out)}:sh{sk}'}
+                    ctx.case(desc)
+                    drive_engine(ctx, method, fwd, a, Q, out, shift, desc)
+    fttools.mdft.clear()
+    fttools.czt.clear()
 
 
 # ------------------------------------------------------------------------------------------ entry points
@@ -954,15 +1626,26 @@ def run(ctx):
     install()
     try:
         rng = ctx.rng('c01')
-        wl_histories(ctx, ctx.rng('c01-hist'))
+        import time
+        secs = {}
+
+        def timed(name, f, *a):
+            t = time.time()
+            f(*a)
+            secs[name] = round(time.time() - t, 1)
+        timed('histories', wl_histories, ctx, ctx.rng('c01-hist'))
         fttools.mdft.clear()
         fttools.czt.clear()
-        wl_grid(ctx, rng)
-        wl_czt_fractional_shift(ctx, ctx.rng('c01-sweep'))
-        wl_fft_route(ctx, ctx.rng('c01-fft'))
-        wl_fixed_sampling(ctx, ctx.rng('c01-fixed'))
-        wl_random(ctx, ctx.rng('c01-random'))
-        wl_float32(ctx, ctx.rng('c01-f32'))
+        timed('grid', wl_grid, ctx, rng)
+        timed('czt-shift-sweep', wl_czt_fractional_shift, ctx, ctx.rng('c01-sweep'))
+        timed('fft-route', wl_fft_route, ctx, ctx.rng('c01-fft'))
+        timed('fixed-sampling', wl_fixed_sampling, ctx, ctx.rng('c01-fixed'))
+        timed('wrapper-histories', wl_wrapper_histories, ctx, ctx.rng('c01-wrapper-hist'))
+        timed('repeat', wl_repeat, ctx, ctx.rng('c01-repeat'))
+        timed('dtypes-aspect', wl_dtypes_and_aspect, ctx, ctx.rng('c01-dtype'))
+        timed('random', wl_random, ctx, ctx.rng('c01-random'))
+        timed('float32', wl_float32, ctx, ctx.rng('c01-f32'))
+        ctx.note('workload_seconds(first shard)', secs)
         ctx.note('largest_error_over_tolerance_among_held_comparisons(first shard)', {k: float(f'{v:.2e}') for k, v in sorted(STATS.items())})
     finally:
         detach_all()
